@@ -105,7 +105,7 @@ func (f *Write) Call(s *slip.Scope, args slip.List, depth int) (result slip.Obje
 
 func writeBag(s *slip.Scope, obj *flavors.Instance, args slip.List, depth int) (result slip.Object) {
 	var out io.Writer
-	dp := slip.DefaultPrinter()
+	dp := *slip.DefaultPrinter()
 	dp.ScopedUpdate(&obj.Scope)
 	pw := pretty.Writer{
 		Options:  options,
